@@ -35,6 +35,10 @@ ASSUMPTIONS = [
 ]
 
 PER_PAGE = 35
+# header fields whose value cannot occur in the output by coincidence: only these are used to
+# assert that export_header=False keeps the header out
+_SENTINEL = ('verif sentinel', 'ZQ7-sentinel-value-X19')
+_DISTINCTIVE = ('generator', 'copyright', 'url', 'command line', _SENTINEL[0])
 _TMPROOT = os.path.join(tempfile.gettempdir(), "verif_c12")
 
 
@@ -118,7 +122,7 @@ def check_opb(text, F, what, export_header=False, export_varnames=False, header_
     if header_content and not export_header:
         # "export_header determines whether the formula header should be inserted"; cnfgen -q: "no header"
         for k, v in F.header.items():
-            if len(asc(v).strip()) >= 8 and any(asc(v) in c for c in res.comments):
+            if k in _DISTINCTIVE and len(asc(v).strip()) >= 8 and any(asc(v) in c for c in res.comments):
                 raise Violation("{}: export_header=False but header field {!r}: {!r} is in a comment".format(what, k, v))
     if export_header and header_content:
         # docstring: "the formula header should be inserted as a comment"
@@ -168,7 +172,7 @@ def check_latex(text, F, what, document, export_header=None):
                 continue            # the description is the title in either case
             if export_header and asc(v) not in text:
                 raise Violation("{}: export_header=True but header field {!r}: {!r} is not in the document".format(what, k, v))
-            if not export_header and asc(v) in text:
+            if not export_header and k in _DISTINCTIVE and asc(v) in text:
                 raise Violation("{}: export_header=False but header field {!r}: {!r} is in the document".format(what, k, v))
     got = [r for blk in doc.blocks for r in blk]
     if len(rows) == 0:
@@ -383,6 +387,7 @@ def build_hand(case):
             F.add_constraint([tuple(t) for t in row[1]] + [row[2], row[3]])
     for k, v in case.get('header', []):
         F.header[k] = v
+    F.header[_SENTINEL[0]] = _SENTINEL[1]
     return F
 
 
